@@ -733,7 +733,16 @@ func c10CheckFlight(e *c10Expect, dgs [][]byte) (fails []c10Fail, pkts []*c10Pkt
 			(p0.CryptoLength > 0 && cb == uint64(p0.CryptoLength) && pi.CryptoLength != p0.CryptoLength)
 		ignoresI := (pi.CryptoLength > 0 && cb > uint64(pi.CryptoLength)) ||
 			(pi.PacketSize > 0 && crypto > 0 && p.HdrLen+minCryptoFrame+16 > pi.PacketSize && (e.MaxPacket == 0 || pi.PacketSize <= e.MaxPacket))
-		if len(pf) > 0 && !isFlight && pi != p0 && len(planChecks(p0)) == 0 && (follows0 || ignoresI) {
+		// ... and a datagram whose only fault under entry i is the (open) "re-framing builder
+		// overshoots a cap that was applied" is not evidence either, even if its size happens
+		// to equal entry 0's PacketSize
+		onlyOvershoot := true
+		for _, f := range pf {
+			if f.key != "size-exact/frames-exceed" && !strings.HasPrefix(f.key, "size-max/") && !strings.HasPrefix(f.key, "size-frames/") {
+				onlyOvershoot = false
+			}
+		}
+		if len(pf) > 0 && !isFlight && pi != p0 && len(planChecks(p0)) == 0 && (ignoresI || (follows0 && !onlyOvershoot)) {
 			pf = append([]c10Fail{}, c10Fail{"plan-index", fmt.Sprintf("datagram %d follows InitialPackets[0] = %+v, not InitialPackets[%d] = %+v: packet %d bytes, datagram %d bytes, %d CRYPTO bytes", i, planFor(0), min(i, len(ips.InitialPackets)-1), planFor(i), p.PacketLen, len(dg), cb)})
 		}
 		fails = append(fails, pf...)
